@@ -1105,6 +1105,9 @@ where
                 // no tasks at hand
                 trace!("timer timed out; closing connection");
                 this.flags.insert(Flags::SHUTDOWN);
+                // fire once: an elapsed timer left active would re-arm the shutdown timer below
+                // on every poll, so the disconnect timeout could never expire
+                this.ka_timer.clear(line!());
 
                 if let Some(deadline) = this.config.client_disconnect_deadline() {
                     // start shutdown timeout if enabled
@@ -1338,6 +1341,9 @@ where
                     if inner.flags.contains(Flags::WRITE_DISCONNECT) {
                         Poll::Ready(Ok(()))
                     } else {
+                        // whichever way shutdown was entered, bound it by the disconnect timeout
+                        inner.as_mut().ensure_linger_timer(cx);
+
                         // flush buffer and wait on blocked
                         ready!(inner.as_mut().poll_flush(cx))?;
                         Pin::new(inner.as_mut().project().io.as_mut().unwrap())
